@@ -259,9 +259,13 @@ def cubic_spline(
             )
         )
 
+    # The spline is defined on the unit square; rescaling to the [left, right] x [bottom, top]
+    # box contributes (top - bottom) / (right - left) to the derivative.
     if inverse:
         outputs = outputs * (right - left) + left
+        logabsdet = logabsdet - math.log(top - bottom) + math.log(right - left)
     else:
         outputs = outputs * (top - bottom) + bottom
+        logabsdet = logabsdet + math.log(top - bottom) - math.log(right - left)
 
     return outputs, logabsdet
